@@ -280,7 +280,7 @@ def wl_shift(ctx, idx, rng):
             clsname = "DualPolarizationSignal" if (len(sshape) > 1 and sshape[1] == 2) else "BasebandSignal"
         else:
             clsname = gen.pick(rng, ["RadioSignal", "IntensitySignal"])
-    rate = gen.rand_rate(rng, lo=0, hi=8)
+    rate = gen.rand_rate(rng, lo=0, hi=8) if kind != "quantity" else gen.rand_rate(rng, lo=0, hi=9.6)
     x = gen.rand_data(rng, (N,) + sshape, dtype)
     # plant tones / impulses so wrap-around is visible in every element
     if N >= 3 and rng.random() < 0.5:
@@ -290,7 +290,8 @@ def wl_shift(ctx, idx, rng):
     s = make_shift(rng, N, sshape, kind, shape_kind)
     sq = s
     if kind == "quantity":
-        sq = (s / sig.sample_rate).to(gen.pick(rng, [u.s, u.ms, u.us, u.ns]))
+        # the same delay written in units from ns to days (numeric values from 1e-15 to 1e+9)
+        sq = (s / sig.sample_rate).to(gen.pick(rng, [u.s, u.ms, u.us, u.ns, u.min, u.hr, u.day, u.ks]))
     crop = bool(rng.integers(2))
     desc.update(N=N, shift=(np.asarray(s).tolist() if np.size(s) < 9 else str(np.shape(s))), shift_kind=kind, shape_kind=shape_kind, crop=crop)
     ctx.describe_case(desc)
